@@ -220,6 +220,6 @@ def run_shard(acc, shard, nshards, seed, tier):
             return dict(key=key, nontrivial=nt, classes=cl, violations=vios, sub=name,
                         sample=dict(cfg=spec['cfg'], routes=spec['routes'], fast=spec['fast'], minutes=spec['n'], fills=stats['fills'],
                                     trades=(r['final'] or {}).get('trades', [])[:2]) if nt else None)
-        runner.hyp_search(acc, sess, chk, (40 if name == 'declarative' else 12) if tier == 'quick' else (2000 if name == 'declarative' else 500),
+        runner.hyp_search(acc, sess, chk, (60 if name == 'declarative' else 20) if tier == 'quick' else (2000 if name == 'declarative' else 500),
                           seed + {'declarative': 0, 'flips': 7, 'liquidations': 13}[name], tier, known=known, shrink_calls=25, max_shrink_sigs=2,
                           describe=lambda spec: dict(spec=spec))
